@@ -11,10 +11,12 @@ namespace Afkak.Monitor.C17
 open Afkak.Group Afkak.Consts
 
 /-- never idle: started and not stopping ⇒ a join is in flight, or the member is stable with the
-    heartbeat timer running, or a rejoin / coordinator-retry timer is pending, or `start`'s
-    Deferred has fired. -/
+    heartbeat timer running, or a rejoin / coordinator-retry timer is pending.  (A started, not
+    stopping member never has `start`'s Deferred fired: it fires only when the stop completes; since
+    fix 2b143e5 a stopped member cannot be started again, so "started and not stopping" is exactly
+    "`start()` was called and no `Coordinator.stop` has begun".) -/
 def busy (sn : Snap) : Bool :=
-  sn.joinInFlight || (!sn.rejoinNeeded && sn.hbRunning && sn.hbTimers ≥ 1) || sn.joinTimers ≥ 1 || sn.startFired
+  sn.joinInFlight || (!sn.rejoinNeeded && sn.hbRunning && sn.hbTimers ≥ 1) || sn.joinTimers ≥ 1
 
 def neverIdleStep (m : MStep) : Bool := !(m.snap.started && !m.snap.stopping) || busy m.snap
 def neverIdle (tr : List MStep) : Bool := tr.all neverIdleStep
